@@ -8,8 +8,9 @@
    (`sys_events`): `sp_acc` = the accepted messages with the positions their offers returned, `sp_del` = what the
    reassembled-message handler received, `sp_stream` = the append-only stream, `sp_ok` = every returned position was the
    stream position just after the message.  `contract` = the environment contract along the history
-   (limit_within_window, clean_before_reuse, the driver never zeroes a partition in use, one BufferClaim used properly,
-   term count < 2^31 - 1).  `handover_ok` = legal geometry (term length 2^10..2^30, MTU a multiple of 32 in
+   (limit_within_window - never beyond subscriber position + term length nor beyond the end of the position space + half a
+   term -, clean_before_reuse, the driver never zeroes a partition in use, one BufferClaim used properly); the last term of
+   the position space (term count 2^31 - 1) is included.  `handover_ok` = legal geometry (term length 2^10..2^30, MTU a multiple of 32 in
    64..min(term/8, 16 MiB), any i32 initial term id), any term count, any 32-aligned tail offset. *)
 Require Import V.Base.MachineInt.
 Require Import V.Generated.GenConsts.
@@ -46,7 +47,7 @@ Print Assumptions C01_fidelity.
    and add no fragment to the stream (at most padding) - and by (1) nothing but accepted messages is ever delivered *)
 Theorem C01_refused_contributes_nothing : forall g sp e,
   match e with
-  | EvOffer _ (Ok _) | EvClaim _ (Ok _) | EvCommit _ | EvPoll _ => False
+  | EvOffer _ (Ok _) _ | EvClaim _ (Ok _) _ | EvCommit _ | EvPoll _ => False
   | _ => True
   end ->
   sp_acc (spec_step g sp e) = sp_acc sp /\ sp_del (spec_step g sp e) = sp_del sp /\
@@ -160,22 +161,35 @@ Example C01_contract_example_64k :
 Proof. split; [|vm_compute; reflexivity].
   unfold handover_ok, geometry_ok. repeat split; try (exists 16; repeat split); try discriminate; try reflexivity. Qed.
 
-(* ---- the last term of the position space (term count 2^31 - 1), after fixes/C01-excl-last-term.diff.
-   ExclusivePublication, hand-over 64 bytes before the end of the last term: offer 1 (100 bytes) does not fit -
-   MaxPositionExceeded, padding to the term end, and the publication is now at the end of the position space; the subscriber
-   consumes the padding; offer 2 (8 bytes) is refused too (before the fix it was ACCEPTED over the padding and never
-   delivered: corpus/C01/last-term-exclusive-overwrite.json).  Nothing accepted, nothing delivered, both positions at the
-   end, and the oracle - which follows position() on MaxPositionExceeded - holds on these observations although the
-   history is outside `contract` (see docs/reports/C01.md for why the theorems still stop before the last term). ---- *)
-Example C01_last_term_exclusive_regression :
+(* ---- the last term of the position space (term count 2^31 - 1) is inside the theorems.
+   ExclusivePublication (with fixes/C01-excl-last-term.diff), hand-over 64 bytes before the end of the last term, limit at the
+   largest value the contract allows there (end of the position space + half a term): offer 1 (100 bytes) does not fit -
+   MaxPositionExceeded, padding to the term end, the publication reports the end of the position space and the abstract
+   stream is padded up to it; the subscriber consumes the padding; offer 2 (8 bytes) is refused too (before the fix it was
+   ACCEPTED over the padding and never delivered: corpus/C01/last-term-exclusive-overwrite.json).  The contract holds,
+   nothing accepted, nothing delivered, both positions at the end of the position space, the oracle holds. ---- *)
+Example C01_last_term_exclusive_example :
   exists s0, sys0_exclusive 0 1024 64 11 22 2147483647 960 = Ok s0 /\
-  let ops := [SSetLimit 2199023256512; SSetConnected true; SOffer 1 100; SPoll 10; SOffer 2 8; SPoll 10; SPoll 10] in
+  let ops := [SSetLimit 2199023256064; SSetConnected true; SOffer 1 100; SPoll 10; SOffer 2 8; SPoll 10; SPoll 10] in
   let sp := spec_run (sgeom_of 1024 64 2147483647 960) spec0 (sys_events exclusive Release harness_rv s0 ops) in
+  contract exclusive Release harness_rv s0 ops = true /\
   map fst (map snd (sys_trace exclusive Release harness_rv s0 ops)) =
     [(Ok 0, []); (Ok 0, []); (Err MaxPositionExceeded, []); (Ok 0, []); (Err MaxPositionExceeded, []); (Ok 0, []); (Ok 0, [])] /\
-  sp_acc sp = [] /\ sp_del sp = [] /\
+  sp_stream sp = [Pad 64] /\ sp_acc sp = [] /\ sp_del sp = [] /\
   im_pos (sy_img (sys_run exclusive Release harness_rv s0 ops)) = 2199023255552 /\
   xpub_position Release (sy_pub (sys_run exclusive Release harness_rv s0 ops)) = Ok 2199023255552 /\
-  holds_c01 (mkC01Geom 1024 64 0 2147483647 960 11) ops (sys_observe exclusive Release harness_rv s0 ops) = true /\
-  contract exclusive Release harness_rv s0 ops = false.
+  holds_c01 (mkC01Geom 1024 64 0 2147483647 960 11) ops (sys_observe exclusive Release harness_rv s0 ops) = true.
 Proof. eexists. split; [reflexivity|]. vm_compute. repeat split; reflexivity. Qed.
+
+(* the same hand-over point with the shared publication: the failed offer bumps the tail counter beyond the term length
+   (pub_inv allows that in the last term), position() reports the end of the position space, the contract holds *)
+Example C01_last_term_shared_example :
+  let s0 := sys0_shared 0 1024 64 11 22 2147483647 960 in
+  let ops := [SSetLimit 2199023256064; SSetConnected true; SOffer 1 100; SPoll 10; SOffer 2 8; SOffer 3 8; SPoll 10; SPoll 10] in
+  let sp := spec_run (sgeom_of 1024 64 2147483647 960) spec0 (sys_events shared Debug harness_rv s0 ops) in
+  contract shared Debug harness_rv s0 ops = true /\
+  sp_stream sp = [Pad 64] /\ sp_acc sp = [] /\ sp_del sp = [] /\
+  im_pos (sy_img (sys_run shared Debug harness_rv s0 ops)) = 2199023255552 /\
+  pub_position Debug (sy_pub (sys_run shared Debug harness_rv s0 ops)) = Ok 2199023255552 /\
+  holds_c01 (mkC01Geom 1024 64 0 2147483647 960 11) ops (sys_observe shared Debug harness_rv s0 ops) = true.
+Proof. vm_compute. repeat split; reflexivity. Qed.
